@@ -279,9 +279,20 @@ func (te *tableEngine) batchAddPlayers(players []JoinPlayer) error {
 
 func (te *tableEngine) playersAutoIn() {
 	// Preparing ready group for waiting all players' join
+	// a fresh ready group for every arming: the previous one may still be busy with signals of its own (its worker, its
+	// timer, a sit-in on its way); re-arming it underneath them dead-locks inside the group or loses the signal
+	te.rgMu.Lock()
+	defer te.rgMu.Unlock()
 	te.rg.Stop()
+	te.rg = syncsaga.NewReadyGroup()
 	te.rg.SetTimeoutInterval(17)
 	te.rg.OnTimeout(func(rg *syncsaga.ReadyGroup) {
+		te.rgMu.Lock()
+		defer te.rgMu.Unlock()
+		if rg != te.rg {
+			return // superseded by a later arming
+		}
+
 		// Auto Ready By Default
 		states := rg.GetParticipantStates()
 		for playerIdx, isReady := range states {
